@@ -1088,6 +1088,10 @@ MUTANTS = [
     m('C14-section-search-unguarded', 'C14', ['R12'],
       'mistral/lang/parser.py',
       "    if section_name not in wb_def:", "    if False:"),
+    m('C14-adhoc-input-stdlib-json', 'C14', ['R12'],
+      'mistral/services/adhoc_actions.py',
+      "from oslo_serialization import jsonutils\n",
+      "import json as jsonutils\n"),
     m('C14-member-names-not-checked', 'C14', ['R12'],
       'mistral/lang/base.py',
       "            if not isinstance(k, str):\n                raise "
